@@ -55,7 +55,12 @@ SensFails(e) ==
   \o Tag(IsPow10(e.bw) => Near(e.s0, -174000 + 10000 * Log10Of(e.bw), 3), "X.sens-anchor")
   \o Tag(Near(e.lb, 10 * e.txc - e.s, 3), "X.sens-budget")
 
+\* a method called on a zero value, or on a value whose optional / interface member is nil, returns (with a result or an
+\* error): the library answers "MACPayload must not be nil" and the like everywhere else
+ZeroValueFails(e) == Tag(e.res \in {"", "error"}, "X.zerovalue")
+
 Fails(e) == CASE e.ev = "gps" -> GpsFails(e)
+              [] e.ev = "zerovalue" -> ZeroValueFails(e)
               [] e.ev = "sens" -> SensFails(e)
               [] e.ev = "gpsback" -> GpsBackFails(e)
               [] e.ev = "gpspair" -> GpsPairFails(e)
